@@ -56,7 +56,7 @@ Definition apply_edits (d : fmap content) (es : list (path * option content)) : 
   fold_left (fun d e => match snd e with Some c => upd d (fst e) c | None => remove d (fst e) end) es d.
 
 Definition outs_of (l : list (path * content * Z)) : list outfile :=
-  map (fun x => let '(p, d, h) := x in mkOut p d h false) l.
+  map (fun x => let '(p, d, h) := x in mkOut p d h true) l.
 
 Fixpoint hist_steps (fixed : bool) (opt : options) (links : list (path * path)) (st : state) (scs : list step_case) : bool :=
   match scs with
